@@ -142,7 +142,7 @@ def pair_tokens(ctx, rep, T, be, tokens, reg_callee, global_regs):
     fns = [g for g in ctx.astq['functions'] if g['file'].endswith(file)]
     n = 0
     for f in fns:
-        if f['name'] in ('write_all_imports', 'add_import', 'add_imports', 'add_type_var', 'get_codable_contents', 'write_codable', 'write_codable_file'):
+        if f['name'] in ('write_all_imports', 'add_import', 'add_imports', 'add_type_var'):
             continue  # the prologue/epilogue writers themselves
         occ = literals_with_context(T, f, fns)
         for tok, regargs in tokens:
@@ -152,6 +152,8 @@ def pair_tokens(ctx, rep, T, be, tokens, reg_callee, global_regs):
                     continue
                 if be == 'python' and tok == 'BaseModel' and 'class' not in text:
                     continue
+                if be == 'swift' and re.search(r'struct\s+CodableVoid', text):
+                    continue  # the definition of the helper type itself (written by the flush path), not a use
                 e_lits = cond_lits(conds) | frame_lits(T, frames)
                 ksig = (tok, tuple(sorted(str(x) for x in e_lits)))
                 if ksig in seen:
@@ -326,15 +328,42 @@ def flush(ctx, rep, T):
         rep.fail('H4', f"swift:{g['name']}:flag-lowered", f"swift: {g['qual']} resets/overwrites should_emit_codable_void — the flag must stay raised from the first `()` until the epilogue (single-file) or post_generation (multi-file, which runs after *all* files): a later file without `()` makes the shared Codable.swift disappear", {'file': g['file'], 'line': c.get('line')})
     if not lowered:
         rep.ok('H4', 'swift:flag-monotone', 'should_emit_codable_void is only ever raised')
-    ef = ctx.fn('Swift::end_file', file='swift.rs')
-    pg = ctx.fn('Swift::post_generation', file='swift.rs')
+    # flush paths, decided by a truth table over (flag raised, multi-file) on the inlined views of the two drivers: the
+    # definition of CodableVoid (a template containing `struct CodableVoid`) is emitted by end_file iff flag ∧ ¬multi and
+    # by post_generation iff flag ∧ multi — whatever helpers, early returns or operand order the code uses
+    ef = ctx.fnx('Swift::end_file', file='swift.rs', force=('write_codable_file', 'write_codable'))
+    pg = ctx.fnx('Swift::post_generation', file='swift.rs', force=('write_codable_file', 'write_codable'))
 
-    def gate(f, callee):
-        for c in f['calls']:
-            if c.get('f') == callee:
-                return ' && '.join(('!' if fr.get('neg') else '') + vt.show(fr['c']) for fr in c['guard'] if fr.get('k') == 'if')
-        return None
-    g1 = gate(ef, 'write_codable')
-    g2 = gate(pg, 'write_codable_file')
-    ok = g1 is not None and g2 is not None and 'should_emit_codable_void' in g1 and 'should_emit_codable_void' in g2 and '!(self.multi_file)' in g1.replace(' ', '') .replace('!self.multi_file', '!(self.multi_file)') and 'self.multi_file' in g2 and '!(self.multi_file)' not in g2
-    rep.check(ok, 'H4', 'swift:flush-paths', f'end_file: [{g1}]  post_generation: [{g2}]', f'swift: CodableVoid is not flushed by complementary single-file ({g1}) / multi-file ({g2}) paths', {'file': ef['file'], 'line': ef['line']})
+    def def_sites(v):
+        out = []
+        for st in v['sites']:
+            lits = ''.join(str(x.get('v', '')) for x in vt.walk(st['fmt']) if x.get('k') == 'lit') + ''.join(p2.get('lit', '') for x in vt.walk(st['fmt']) if x.get('k') == 'fmt' for p2 in x.get('parts', []) if isinstance(p2, dict))
+            if re.search(r'struct\s+CodableVoid', lits):
+                out.append(st)
+        return out
+
+    def emits(v, flag, multi):
+        res = []
+        for st in def_sites(v):
+            frames = [fr for fr in st['guard'] if fr.get('k') == 'if']
+            conds = [fr['c'] for fr in frames]
+            vocab = sorted(guards.vocabulary(T, conds))
+            asg = {}
+            for k2 in vocab:
+                if 'should_emit_codable_void' in k2:
+                    asg[k2] = flag
+                elif 'multi_file' in k2:
+                    asg[k2] = multi
+            res.append(guards.frames_hold(T, frames, asg))
+        return res
+    table = {}
+    for name, v, want_multi in (('end_file', ef, False), ('post_generation', pg, True)):
+        for flag in (False, True):
+            for multi in (False, True):
+                r = emits(v, flag, multi)
+                got = any(x is True for x in r) if all(x is not None for x in r) else None
+                table[(name, flag, multi)] = (got, flag and (multi == want_multi))
+    bad = {k2: v2 for k2, v2 in table.items() if v2[0] is not v2[1]}
+    found = bool(def_sites(ef)) and bool(def_sites(pg))
+    ok = found and not bad
+    rep.check(ok, 'H4', 'swift:flush-paths', 'end_file emits CodableVoid iff flag∧¬multi_file; post_generation iff flag∧multi_file', 'swift: the CodableVoid definition is not flushed by complementary single-file / multi-file paths: ' + ('definition site not found in end_file/post_generation' if not found else '; '.join(f"{k2[0]}(flag={k2[1]}, multi={k2[2]}) emits={v2[0]} expected={v2[1]}" for k2, v2 in sorted(bad.items()))), {'file': ef['file'], 'line': ef['line']})
